@@ -31,9 +31,20 @@ Syms == {"create", "genkey", "encrypt", "upconfig", "upconfig!", "upindex", "upi
 MCInit == Init /\ hist = <<>>
 MCNext == /\ Len(hist) < D
           /\ \E s \in Syms :
-                /\ (s = "restart" => (hist # <<>> /\ hist[Len(hist)] # "restart" /\ st > 0))   \* only restarts that can matter
+                /\ (s = "restart" => (IF hist = <<>> THEN FALSE ELSE hist[Len(hist)] # "restart" /\ st > 0))   \* only restarts that can matter
                 /\ Sym(s) /\ hist' = Append(hist, s)
 MCSpec == MCInit /\ [][MCNext]_mvars
+
+\* ---- the goal-directed driver of ClientImpl (DriverNext), as a generator: every way the documented workflow can run when up to
+\* MaxLost echoes are lost; a history ends with the first search
+DrvSyms == IF ~disk.cc THEN {"create"} ELSE IF ~disk.kc THEN {"genkey"} ELSE IF ~disk.de /\ ~disk.du THEN {"encrypt"}
+           ELSE IF ~disk.cu THEN {"upconfig", "upconfig!"} ELSE IF ~disk.du THEN {"upindex", "upindex!"} ELSE {"search"}
+LastIsSearch == IF hist = <<>> THEN FALSE ELSE hist[Len(hist)] = "search"
+DrvNext == /\ ~LastIsSearch /\ Len(hist) < 20
+           /\ \E s \in DrvSyms : Sym(s) /\ hist' = Append(hist, s)
+DrvSpec == MCInit /\ [][DrvNext]_mvars
+DrvEmit == LastIsSearch => PrintT(<<"H", hist>>)
+DrvEndsInGoal == LastIsSearch => Goal
 
 \* only histories with a loss, and whose last command is one that connects (it shows whether the lag was repaired)
 Interesting == Len(hist) = D /\ lost > 0 /\ hist[D] \in {"upconfig", "upindex", "search"}
